@@ -12,8 +12,10 @@ out.append('### 5.1 Seeded changes written by independent sub-agents\n')
 out.append('Each change was written by a fresh sub-agent that saw only the text of one property and a scratch worktree of `/repo` '
            '(nothing from `/verif`). It was kept under `seeded/<id>/` (patch.diff, demo.py, notes.md, meta.json) only after being '
            'confirmed with `tools/seeded_eval.py`: the patch applies to `/repo` HEAD, the repository\'s suite passes exactly as before '
-           '(34/34 baseline tests, 108 passing in total), the demo exits 1 on the patched copy and 0 on a clean one. The last columns '
-           'give every quick check (seed 0) that reported a `VIOLATION` on the patched copy; all other checks stayed silent.\n')
+           '(34/34 baseline tests, 108 passing in total), the demo exits 1 on the patched copy and 0 on a clean one. The last column '
+           'gives every quick check (seed 0) that reported a `VIOLATION` on the patched copy when the change was kept (with the machinery of that moment; '
+           'later strengthening only adds checks to these lists); the check of the change\'s own property was re-run on every kept change with the final '
+           'machinery (`tools/reeval_all.py --own-only`).\n')
 out.append('| seeded change | breaks | needs, in order to manifest | caught by (quick, seed 0) |')
 out.append('|---|---|---|---|')
 rows = []
@@ -28,7 +30,7 @@ out += rows
 out.append('')
 out.append(open(os.path.join(HERE, 'tools', 'missed_log.md')).read())
 out.append('### 5.1b Behaviour-preserving refactorings (false-alarm resistance)\n')
-out.append('Six further sub-agents were each given two to four property texts and a scratch worktree and asked for a *substantial '
+out.append('Twelve further sub-agents (six early, six after round 8 of the seeded changes, when the checks had become much stricter) were each given two to four property texts and a scratch worktree and asked for a *substantial '
            'refactoring that keeps the properties true* (vectorising loops, restructuring branches, renaming and splitting helpers, '
            'rebuilding tables differently), validated by their own differential script against the original functions. Kept under '
            '`refactors/<id>/`. Every quick check was run on each refactored copy:\n')
